@@ -467,3 +467,33 @@ def _(c):
         via2 = np.asarray(orb.propagate(mid.date), dtype=float)
         c.ensure("iter_vs_propagate.mid", bool(np.linalg.norm(np.asarray(mid[:3], dtype=float) - via2[:3]) <= 2e-2))
     c.ensure("initial_untouched", bool(np.array_equal(np.asarray(orb, dtype=float), np.array(list(r0) + list(v0))) and orb.date == d0))
+
+
+def _grid_near(tier, rng):
+    """methods {rk4, rkf54, dopri54} (nominal step 60 s) x targets at k steps from the epoch, k in {+-1, +-2, +-3, +-6, +-7, +-8, +-0.5, +-1.5, +-6.25} (on and off the
+    integration grid, inside and outside the 8-point interpolation window), forwards and backwards"""
+    for m in range(3):
+        for k in (1, 2, 3, 6, 7, 8, 0.5, 1.5, 6.25):
+            for sgn in (1, -1):
+                yield {"method": m, "k": k * sgn}
+
+
+@contract("C06", "near_targets", funcs=[f"{KNC}._iter", "beyond.propagators.base:NumericalPropagator.propagate"], grid=_grid_near, level="bounded")
+def _(c):
+    """bounded: a target a few integration steps from the epoch (where the internal ephemeris is padded for the interpolation) is answered with the state *at that date*:
+    the returned date is the requested one, the position agrees with the independent two-body solution within 1 m (point-mass Earth; the integration error over a few 60 s
+    steps is millimetres), and iterating from that date starts with the same state"""
+    from beyond.dates import timedelta
+    from contracts import twobody
+    method = ["rk4", "rkf54", "dopri54"][c.integer("method")]
+    orb, r0, v0, d0, T, mu = _orbit("iss", method, 60.0, 1e-4)
+    dt = c.real("k") * 60.0
+    target = d0 + timedelta(seconds=dt)
+    got = orb.propagate(target)
+    c.ensure("date_is_the_requested_one", abs((got.date - target).total_seconds()) < 1e-6)
+    rr, vv = twobody.propagate(r0, v0, dt, mu)
+    c.ensure("state_at_that_date", bool(np.linalg.norm(np.asarray(got[:3], dtype=float) - rr) <= 1.0 and np.linalg.norm(np.asarray(got[3:], dtype=float) - vv) <= 1e-2))
+    if dt > 0:
+        first = next(iter(orb.iter(start=target, stop=target + timedelta(seconds=600), step=timedelta(seconds=60))))
+        c.ensure("iteration_from_that_date_starts_there", abs((first.date - target).total_seconds()) < 1e-6
+                 and bool(np.linalg.norm(np.asarray(first[:3], dtype=float) - np.asarray(got[:3], dtype=float)) <= 2e-2))
